@@ -211,8 +211,12 @@ def run_C09(ctx):
 
 
 # ------------------------------------------------------------------ C02 / C05 / C08
-def _docs(ctx, layouts):
-    cfg = "MC_C02_quick.cfg" if ctx.quick else "MC_C02_thorough.cfg"
+def _docs(ctx, layouts, own=True):
+    """own: the check owns the document model (C02) -> full bound; otherwise the model is an input generator"""
+    if own:
+        cfg = "MC_C02_quick.cfg" if ctx.quick else "MC_C02_thorough.cfg"
+    else:
+        cfg = "MC_C02_gen.cfg" if ctx.quick else "MC_C02_quick.cfg"
     r = ctx.tlc("MC_C02", cfg=cfg, timeout=3300)
     res = ctx.vh("doc-replay", r.out, env={"VH_LAYOUTS": str(layouts), "VERIF_SEED": str(ctx.seed)}, timeout=3300)
     return r, res
@@ -223,7 +227,7 @@ def _only(res, prefixes, invert=False):
     return dict(res, mismatches=keep, n_mismatch=len(keep))
 
 
-DOC_RULE = ("documents = JSIGHT + every sequence of up to 3 (quick) / 4 (thorough) distinct blocks out of 18 block templates (INFO, SERVER, 2 TAGs, 3 TYPEs incl. a reference and a regex, ENUM, "
+DOC_RULE = ("documents = JSIGHT + every sequence of up to 3 distinct blocks (C02 quick: 22 765 documents; C02 thorough: up to 4; as input generator for other properties: up to 2 quick / 3 thorough) out of 29 block templates (INFO, SERVER, 2 TAGs, 3 TYPEs incl. a reference and a regex, ENUM, "
             "URL groups with methods / query / request / responses / headers / path variables, explicit and implicit contexts, stand-alone methods, JSON-RPC URL, Tags at URL and method level, "
             "MACRO + PASTE, a similar-path block); the specification predicts accept + catalog skeleton, or error class + line. ")
 
@@ -245,7 +249,7 @@ def run_C05(ctx):
     ctx.cov["rule"] = ("M: CrossRefsClosed on every accepted catalog of the document model. G: " + DOC_RULE + "The cross-reference invariants are evaluated directly on the real JSON of every accepted document. "
                        "V: every accepted file of the repository's corpus (714 of 1108) is built, its catalog logged in skeleton form and judged by Trace_C05.tla (SkelOK). "
                        "Non-trivial = distinct block sequences / accepted corpus files.")
-    r, res = _docs(ctx, 1)
+    r, res = _docs(ctx, 1, own=False)
     ctx.absorb(_only(res, ["c05:", "doc:panic", "doc:tojson", "doc:catalog-shape"]), "G:doc-replay(c05)")
     tp = os.path.join(ctx.scratch, "trace_c05.ndjson")
     rec = ctx.vh("corpus-skeletons", REPO, tp)
@@ -326,7 +330,7 @@ def run_C16(ctx):
 # ------------------------------------------------------------------ C04 / C17 / C06 (accepted-project sweeps)
 def _sweep(ctx, checks, nmut):
     """accepted projects: the documents of the block model, the corpus, and seeded mutations of the corpus"""
-    cfg = "MC_C02_quick.cfg" if ctx.quick else "MC_C02_thorough.cfg"
+    cfg = "MC_C02_gen.cfg" if ctx.quick else "MC_C02_quick.cfg"
     r = ctx.tlc("MC_C02", cfg=cfg, timeout=3300)
     a = ctx.vh("sweep", checks, "model:" + r.out, timeout=3300)
     b = ctx.vh("sweep", checks, "corpus:" + REPO, nmut, ctx.seed, timeout=3300)
@@ -553,7 +557,7 @@ def run_C08(ctx):
     ctx.absorb(resd, "G:desc-replay")
     std = ctx.vh("desc-replay", rd.out, "selftest")
     ctx.selftest(std["n_mismatch"] == std["cases"], "C08 G: a wrong description text is noticed")
-    r3 = ctx.tlc("MC_C02", cfg="MC_C02_quick.cfg" if ctx.quick else "MC_C02_thorough.cfg", timeout=3300)
+    r3 = ctx.tlc("MC_C02", cfg="MC_C02_gen.cfg" if ctx.quick else "MC_C02_quick.cfg", timeout=3300)
     res3 = ctx.vh("doc-replay", r3.out, env={"VH_LAYOUTS": "6", "VERIF_SEED": str(ctx.seed), "VH_IGNORE": "uenums"}, timeout=3300)
     ctx.absorb(_only(res3, ["layout:"]), "G:doc-replay(6 layouts)")
     res4 = ctx.vh("c08-corpus", REPO, 2 if ctx.quick else 1, timeout=3000)
